@@ -829,11 +829,17 @@ func (l *Gsub8_1) encode() []byte {
 	total += l.Input.EncodeLen()
 	backtrackCoverageOffsets := make([]uint16, backtrackGlyphCount)
 	for i, cov := range l.Backtrack {
+		if total > 0xFFFF {
+			panic("Gsub8_1 too large")
+		}
 		backtrackCoverageOffsets[i] = uint16(total)
 		total += cov.EncodeLen()
 	}
 	lookaheadCoverageOffsets := make([]uint16, lookaheadGlyphCount)
 	for i, cov := range l.Lookahead {
+		if total > 0xFFFF {
+			panic("Gsub8_1 too large")
+		}
 		lookaheadCoverageOffsets[i] = uint16(total)
 		total += cov.EncodeLen()
 	}
